@@ -174,19 +174,22 @@ func (c *Ctx) rulePerRecipientWrites(id string) {
 	if o == nil {
 		return
 	}
-	// the fan-out function: calls arming functions and LocalState.Get, is not itself arming
+	// the fan-out function: looks sessions up in a loop and reaches the arming functions (directly or through
+	// per-QoS helpers), is not itself arming
+	isArmCall := func(cl *core.Call) bool { return cl.Static != nil && o.arming[cl.Static] != nil }
 	var fan *ssa.Function
 	for _, f := range c.P.ModFuncs() {
 		if o.arming[f] != nil || f.Parent() != nil {
 			continue
 		}
-		callsArm := false
-		for _, cl := range core.CallsIn(f) {
-			if cl.Static != nil && o.arming[cl.Static] != nil {
-				callsArm = true
+		inLoop := false
+		loops := core.Loops(f)
+		for _, g := range core.CallsTo(f, o.localGet) {
+			if core.InnermostLoop(loops, g.Instr.Block()) != nil {
+				inLoop = true
 			}
 		}
-		if callsArm && len(core.CallsTo(f, o.localGet)) > 0 {
+		if inLoop && c.reaches(f, 2, isArmCall) {
 			fan = f
 		}
 	}
@@ -201,7 +204,14 @@ func (c *Ctx) rulePerRecipientWrites(id string) {
 		ru.Fail("fan-out loop of "+c.fname(fan), c.where(fan, fan), "the registry lookup is not inside a loop over the recipients")
 		return
 	}
-	paths, err := core.EnumPaths(fan, core.PathOpts{Start: g.Instr.Block(), Stop: func(b *ssa.BasicBlock) bool { return b == loop.Header }})
+	directGet := func(f *ssa.Function) bool {
+		return f != nil && f.Parent() == nil && o.arming[f] == nil && c.callsTransitively(f, 0, func(x *core.Call) bool { return x.Is(o.midGet) })
+	}
+	paths, err := c.pathsInlined(fan, core.PathOpts{Start: g.Instr.Block(), Stop: func(b *ssa.BasicBlock) bool { return b == loop.Header }},
+		func(cl *core.Call) bool {
+			return isArmCall(cl) || cl.Is(o.midGet, o.midPut) || directGet(cl.Static) || (cl.Obj != nil && cl.Obj.Pkg() != nil && cl.Obj.Pkg().Path() == pkgEncoder)
+		},
+		func(f *ssa.Function) bool { return o.arming[f] != nil })
 	if err != nil {
 		ru.Undecided("fan-out loop of "+c.fname(fan), c.where(fan, fan), err.Error())
 		return
@@ -214,7 +224,7 @@ func (c *Ctx) rulePerRecipientWrites(id string) {
 		if v, ok := takesIDMemo[f]; ok {
 			return v
 		}
-		v := c.callsTransitively(f, 1, func(x *core.Call) bool { return x.Is(o.midGet) })
+		v := directGet(f)
 		takesIDMemo[f] = v
 		return v
 	}
@@ -242,7 +252,7 @@ func (c *Ctx) rulePerRecipientWrites(id string) {
 			case pc.Static != nil && o.arming[pc.Static] != nil:
 				arms++
 				tgt := o.arming[pc.Static]
-				if tgt.sessIdx >= 0 && core.Strip(pc.Common.Args[tgt.sessIdx]) != g.Value() {
+				if tgt.sessIdx >= 0 && !same(p.Resolve(pc.Common.Args[tgt.sessIdx]), g.Value()) {
 					bad = "the message is armed for a session other than the recipient looked up in this iteration"
 				}
 			case pc.Is(o.midGet) || (pc.Static != nil && pc.Static.Parent() == nil && o.arming[pc.Static] == nil && takesID(pc.Static)):
@@ -299,14 +309,23 @@ func (c *Ctx) rulePerRecipientWrites(id string) {
 	// the packet armed for a recipient is that recipient's own object
 	bad = ""
 	nArm := 0
-	for _, cl := range core.CallsIn(fan) {
+	for _, cl := range c.callsDeep(fan, 2) {
+		if cl.Static == nil || o.arming[cl.Static] == nil || o.arming[cl.Instr.Parent()] != nil || enclosingTop(cl.Instr.Parent()) != cl.Instr.Parent() {
+			continue
+		}
 		tgt := o.arming[cl.Static]
-		if cl.Static == nil || tgt == nil || tgt.pktIdx < 0 || !loop.Blocks[cl.Instr.Block()] {
+		inLoop := false
+		for _, at := range c.liftTo(fan, cl.Instr) {
+			if loop.Blocks[at.Block()] {
+				inLoop = true
+			}
+		}
+		if tgt.pktIdx < 0 || !inLoop {
 			continue
 		}
 		nArm++
-		al, ok := core.Strip(cl.Common.Args[tgt.pktIdx]).(*ssa.Alloc)
-		if !ok {
+		al, ok := deepStrip(cl.Common.Args[tgt.pktIdx]).(*ssa.Alloc)
+		if !ok || al.Parent() != fan {
 			bad = "the packet handed to " + c.fname(cl.Static) + " is not a packet built in the fan-out"
 			continue
 		}
